@@ -126,6 +126,11 @@ def run(ctx):
         trunc = int(rs.choice([1, 2, 3, n - 1 if n > 2 else 1, n, n + 2]))
         for vt in ('center', 'direct', 'regular'):
             fits.append((n, pattern, vt, max(1, trunc), ctx.seed * 104729 + i))
+    # tables in which one column is an increasing function of another (first trees only: the pseudo-observations of such a pair are
+    # constant, and the library refuses to go deeper)
+    for i, n in enumerate((2, 3, 4, 5, 6) if quick else (2, 2, 3, 3, 4, 4, 5, 5, 6, 6, 7)):
+        for vt in ('center', 'direct', 'regular'):
+            fits.append((n, 'exact-monotone', vt, 1, ctx.seed * 104729 + 5000 + i))
     with Pool(16) as pool:
         log = pool.map(_drive, jobs, chunksize=8) + pool.map(_fit, fits, chunksize=4)
     wd = T.workdir()
